@@ -78,6 +78,9 @@ type Space struct {
 	From    []string
 	Client  []string
 	Pay     []string
+	// FullSameLen: the payload perturbations hold every same-length variant (per byte
+	// position), not only three of them (history section).
+	FullSameLen bool
 }
 
 func be8(n uint64) string {
@@ -408,7 +411,7 @@ func (s *Space) perturbations(t Tuple, e ql.EntryIdentity, r ql.Record) []pert {
 		v := v
 		rec("client-number", func(c *ql.Record) { c.ClientMsgNo = v })
 	}
-	for _, v := range others(s.Pay, t.Pay, strx(t.Pay)...) {
+	for _, v := range others(s.Pay, t.Pay, append(strx(t.Pay), sameLenPayloads(t.Pay, s.FullSameLen)...)...) {
 		v := v
 		rec("payload", func(c *ql.Record) { c.Payload = []byte(v) })
 	}
@@ -940,6 +943,7 @@ func Run(r *ev.R, api API, opt Options) {
 		return
 	}
 	x := &runner{api: api, opt: opt, sp: sp, sink: &sink{}}
+	x.historySection(r) // first: call-to-call state must be what the histories themselves produce
 	x.sweepSection(r)
 	x.identitySection(r)
 	x.chainSection(r)
@@ -982,6 +986,8 @@ func replay(r *ev.R, api API, opt Options, rf *ev.ReplayFile) {
 		}
 	case "sweep":
 		x.replaySweep(p)
+	case "history":
+		x.replayHistory(p)
 	case "chain":
 		ci := 0
 		if m, ok := p.Detail.(map[string]any); ok {
